@@ -344,7 +344,7 @@ func Choose(n int, label string) int {
 	return c
 }
 
-// Go spawns a managed thread. Spawning is a visible operation.
+// Go spawns a managed thread.
 func Go(f func()) {
 	s := active
 	if s == nil {
@@ -357,7 +357,9 @@ func Go(f func()) {
 	t := s.newThread("go", f)
 	t.started = true
 	s.logf("T%d spawn T%d", s.cur.id, t.id)
-	s.yieldUntil(nil, "go")
+	// no scheduling point: a spawn only enables another thread, so a switch
+	// right after it is equivalent to one at the spawner's next visible
+	// operation (or its exit, which is a choice point)
 }
 
 // GoNamed is Go with a thread name for reports.
@@ -372,7 +374,6 @@ func GoNamed(name string, f func()) {
 	}
 	t := s.newThread(name, f)
 	t.started = true
-	s.yieldUntil(nil, "go "+name)
 }
 
 // Aborted reports whether the current execution was aborted; shims called from
